@@ -142,7 +142,8 @@ class C18(Prop):
         if which[0] == "c":
             bad = which in ("cshuffledp", "cmarkov0", "cmarkov1") and rng.random() < 0.08
             if which in ("cshuffle", "ckmers", "cwindows", "creverse") and rng.random() < 0.4:
-                s = bytes(rng.randrange(1, 128) for _ in range(L))     # any non-NUL 7-bit bytes
+                hi = 256 if rng.random() < 0.3 else 128                 # any non-NUL bytes, sometimes with the high bit set (negative chars)
+                s = bytes(rng.randrange(1, hi) for _ in range(L))
             else:
                 s = self.rand_text(rng, L, alpha_only=not bad)
             op = "%s s=%s" % (which, hx(s))
